@@ -420,3 +420,68 @@ func r136(c *Ctx, r *R) {
 		})
 	})
 }
+
+func init() {
+	register(&Rule{ID: "R13.7", Props: []string{"C13"}, Floor: 4, Title: "sharded ingest: a block is linked into the shard only if it fits under the limit, exactly the linked block is sent, and a full shard is flushed (never an empty one) before the block is retried", Run: r137})
+}
+
+func r137(c *Ctx, r *R) {
+	f := c.fn(r, "adder/sharding", "DAGService.ingestBlock")
+	if f == nil {
+		return
+	}
+	fits := func(b *ssa.BasicBlock, want bool) bool {
+		return guardedBy(b, func(g Guard) bool {
+			bo, ok := g.Cond.(*ssa.BinOp)
+			if !ok {
+				return false
+			}
+			lim, _ := originCall(bo.Y)
+			if lim == nil || !nameMatches(callName(lim.Common()), "sharding.shard).Limit") {
+				return false
+			}
+			sum, ok := bo.X.(*ssa.BinOp)
+			if !ok || sum.Op != token.ADD {
+				return false
+			}
+			sz, _ := originCall(sum.X)
+			if sz == nil || !nameMatches(callName(sz.Common()), "sharding.shard).Size") {
+				return false
+			}
+			under := (bo.Op == token.LSS || bo.Op == token.LEQ) == g.Branch
+			return under == want
+		})
+	}
+	links := findCalls(f, false, "sharding.shard).AddLink")
+	puts := findCalls(f, false, "adder.BlockAdder).Add")
+	if len(links) != 1 || len(puts) != 1 {
+		r.Bad("ingest:shape", f.Pos(), "ingestBlock has %d AddLink and %d block Add calls (expected 1 and 1)", len(links), len(puts))
+		return
+	}
+	r.Check(fits(links[0].Block(), true), "ingest:link-only-if-fits", links[0].Pos(), "a block is linked only when shard size + block size stays under the limit", "AddLink is not guarded by the shard-size test: shards grow beyond their size limit")
+	r.Check(dominatesInstr(links[0], puts[0]) && fits(puts[0].Block(), true), "ingest:put-what-was-linked", puts[0].Pos(), "the block is sent right after (and only when) it was linked", "a block can be sent without being linked into the shard (or linked without being sent): the shard's links no longer partition the delivered blocks")
+	// same node: AddLink(ctx, n.Cid(), size) and Add(ctx, n)
+	nodeOK := paramIndex(f, strip(callArgs(puts[0].Common())[1])) == 2
+	if cidc, _ := originCall(callArgs(links[0].Common())[1]); cidc == nil || !cidc.Common().IsInvoke() || cidc.Common().Method.Name() != "Cid" || paramIndex(f, cidc.Common().Value) != 2 {
+		nodeOK = false
+	}
+	r.Check(nodeOK, "ingest:same-block", links[0].Pos(), "the linked CID is the CID of the block that is sent", "the CID linked into the shard is not that of the block being sent")
+	fl := findCalls(f, false, "sharding.DAGService).flushCurrentShard")
+	if len(fl) != 1 {
+		r.Bad("ingest:flush", f.Pos(), "ingestBlock has %d flush calls", len(fl))
+		return
+	}
+	nonEmpty := guardedBy(fl[0].Block(), func(g Guard) bool {
+		x, k, tme, ok := eqConst(g.Cond)
+		if !ok {
+			return false
+		}
+		sz, _ := originCall(x)
+		iv, _ := constInt(ssa.NewConst(k, x.Type()))
+		return sz != nil && nameMatches(callName(sz.Common()), "sharding.shard).Size") && iv == 0 && tme != g.Branch
+	})
+	r.Check(nonEmpty && fits(fl[0].Block(), false), "ingest:flush-only-full-nonempty", fl[0].Pos(), "a shard is flushed only when the block does not fit and the shard is not empty", "the current shard is flushed although the block fits or the shard is empty (empty shards would be pinned / infinite retry)")
+	retry := findCalls(f, false, "sharding.DAGService).ingestBlock")
+	okRetry := len(retry) == 1 && paramIndex(f, callArgs(retry[0].Common())[1]) == 2 && guardedBy(retry[0].Block(), func(g Guard) bool { return gCallErrNil(g, "sharding.DAGService).flushCurrentShard") })
+	r.Check(okRetry, "ingest:retry-after-flush", f.Pos(), "after a successful flush the same block is ingested again", "the block that did not fit is not retried after the flush (it is dropped from the DAG)")
+}
